@@ -14,7 +14,7 @@ RULE = (
     "multi-column bs / poly effects in group items, responses numeric / categorical / y[level] / call / none); each "
     "derivation evaluates the common and the group matrix of the training object or of the previously derived object "
     "on drawn training rows, optionally with unseen groups / levels injected (silent mode); every object reached is "
-    "inspected; distinct = distinct (formula, frame, history); non-trivial = an object with >= 3 terms of different "
+    "inspected; a single-level factor (a term of width zero) or an offset term is appended to some designs; distinct = distinct (formula, frame, history); non-trivial = an object with >= 3 terms of different "
     "widths, or a derived group matrix widened by a new group, or a chain of two derivations"
 )
 ASSUMPTIONS = [
@@ -34,6 +34,13 @@ def case_strategy(draw):
         d = dict(d, response="y")
         d["formula"] = rich.render(d)
     n = frames.nrows(spec)
+    # a factor with a single level (its reduced coding has no column: a term of width zero) and offset terms
+    spec["cols"].append({"name": "c1", "kind": "str", "values": ["only"] * n})
+    extra = draw(st.sampled_from([None, None, None, "c1", "c1", "(c1 | g)", "offset(z)", "offset(2.5)", "offset(np.abs(x))"]))
+    if extra is not None:
+        trailer = " - 1" if d["formula"].rstrip().endswith("- 1") else ""
+        body = d["formula"].rstrip()[: len(d["formula"].rstrip()) - len(trailer)] if trailer else d["formula"]
+        d = dict(d, formula=f"{body} + {extra}{trailer}", extra_term=extra)
     used = sorted((rich.used_columns(dict(d, response=None))) & set(c10.UNSEEN))
     history = []
     for _ in range(draw(st.integers(0, 3))):
@@ -61,7 +68,7 @@ def inspect_matrix(ctx, case, where, m, kind, nrows):
     start = 0
     for name in names:
         sl = m.slices[name]
-        if sl.start != start or sl.stop <= sl.start or (sl.step not in (None, 1)):
+        if sl.start != start or sl.stop < sl.start or (sl.step not in (None, 1)):
             ctx.fail("slices", case, f"{where}: slice of {name} is {sl}, expected to start at {start}", kind + ":contiguous")
             return
         start = sl.stop
